@@ -152,7 +152,7 @@ def replay(doc):
     rep = lib.Report(PID, "quick", "model_checking", evidence=False)
     with lib.Scratch("c08r") as sc:
         at.set_tmpdir(sc.path("files"))
-        base = {k: case[k] for k in ("id", "kind", "fmt", "req", "lines", "colseed", "serial0") if k in case}
+        base = {k: case[k] for k in ("id", "kind", "fmt", "req", "lines", "colseed", "serial0", "terhet") if k in case}
         rec = at.record_c08(base)
         res = lib.trace_validate("Trace_AtomTable", "Trace_AtomTable_C08.cfg", [rec], sc, chunks=1)
         res["verdicts"] = [v for v in res["verdicts"] if v[1] != "skip"]
